@@ -322,6 +322,11 @@ class ComponentRegistry:
 
         entry = self._register_to_library(name, component)
 
+        # The same component registered again after the tag formatter has changed: it now uses
+        # the new tag, so it must no longer be counted as a user of the old one.
+        if existing_component and existing_component.tag != entry.tag:
+            self._unlink_tag(name, existing_component.tag)
+
         # Keep track of which components use which tags, because multiple components may
         # use the same tag.
         tag = entry.tag
@@ -359,8 +364,11 @@ class ComponentRegistry:
         self.get(name)
 
         entry = self._registry[name]
-        tag = entry.tag
+        self._unlink_tag(name, entry.tag)
 
+        del self._registry[name]
+
+    def _unlink_tag(self, name: str, tag: str) -> None:
         # Unregister the tag from library if this was the last component using this tag
         # Unlink component from tag
         self._tags[tag].remove(name)
@@ -376,8 +384,6 @@ class ComponentRegistry:
             # Unregister the tag from library if this was the last component using this tag
             if is_tag_empty and tag in self.library.tags:
                 del self.library.tags[tag]
-
-        del self._registry[name]
 
     def get(self, name: str) -> Type["Component"]:
         """
